@@ -77,4 +77,8 @@ for i, e in enumerate(["sort_by(`[1]`, &`{}`)", "sort_by(`[{\"a\":null}]`, &a)",
 for i, e in enumerate(["to_string(&a)", "to_array(&a)", "not_null(&a)", "contains(`[1]`, &a)", "type(&a)", "to_number(&@)", "not_null(`null`, &a)"]):
     case("C10", "F8-%d" % i, "diff", e, "null")
 case("C16", "F8-tostring", "jsondata", "to_array(&a)", "null")
+# I6 (documents of harness/hardening_test.go exoDocs(): 0 = struct with a **T field, 5 = pointer to an array)
+for prop in ("C05", "C18"):
+    case(prop, "I6-ptr-to-ptr", "exotic-doc", "PP.Name", None, {"doc": 0}); case(prop, "I6-ptr-to-array", "exotic-doc", "Colors.red", None, {"doc": 5})
+    case(prop, "I6-ptr-to-ptr-nested", "exotic-doc", "[PP.Name, Arr]", None, {"doc": 1})
 print("wrote", n, "corpus cases")
